@@ -9,6 +9,7 @@ component (`RawSub`: every still-undecoded header of `m'` is a header of `m`) th
 round-trip hypothesis `RoundTrips` travel along a chain of operations.
 -/
 import Sip.Message
+import Lemmas.Literal
 open GoStd Sip
 
 namespace Lemmas
@@ -263,6 +264,11 @@ theorem RoundTrips.mono {hs hs' : List Header} (hr : RoundTrips cm hs) (hsub : R
     RoundTrips cm hs' := by
   intro h hm s hs
   exact hr h (hsub h hm (by rw [hs]; rfl)) s hs
+
+/-- Since From, To and CSeq values keep the text they were decoded from and print it (Lemmas.Literal),
+the round-trip hypothesis holds for EVERY header list. -/
+theorem roundTrips_all (hs : List Header) : RoundTrips cm hs :=
+  fun _ _ _ _ => ⟨fun _ _ hf => parseFromTo_encode hf, fun _ _ hc => parseCSeq_encode hc⟩
 
 /-! ### the relation between a message and what an operation makes of it -/
 
